@@ -10,6 +10,8 @@ for f in sorted(glob.glob("/tmp/seedres/*.json")):
     src = "/tmp/seed_%s/%s" % (d["id"], d["m"])
     if d.get("error") or "checks" not in d:
         print(name, "SKIP (error):", d.get("error", "")[:120]); continue
+    if "suite_failed_names" not in d:
+        print(name, "SKIP: suite phase not run yet"); continue
     bad = [n for n, _ in d.get("suite_failed_names", []) if n not in KNOWN_BAD]
     if d.get("demo_pristine_rc") != 0 or not d.get("demo_patched_rc"):
         print(name, "SKIP: demo does not separate pristine/patched", d.get("demo_pristine_rc"), d.get("demo_patched_rc")); continue
